@@ -56,13 +56,27 @@ WITNESSES = [
 ]
 
 
-def gen_cases(ctx, n):
+MAX_MODEL_CHARS = 6000
+
+
+def gen_cases(ctx, n, ncorpus=0):
     cases = []
+    if ncorpus != 0:
+        from . import c10
+        files = c10.corpus_files()
+        if ncorpus is not None and ncorpus < len(files):
+            files = sorted(cm.rng(ctx.seed, "c01-corpus").sample(files, ncorpus))
+        for path in files:
+            src = c10.read_source(path)
+            if src is not None and "\r" not in src:
+                cases.append({"kind": "corpus", "path": path, "tool": "reformat", "src": src, "sp": [1, 1], "params": {}, "db": 0,
+                              "flags": [True, True, True]})
     for tag, tool, src in WITNESSES:
         cases.append({"kind": "witness", "tag": tag, "tool": tool, "src": src, "sp": [1, 1], "params": {}, "db": 3 if tag.startswith("doc") or tag in ("top", "comment_only_first", "F39", "F39b", "deco") else 0,
                       "flags": [True, True, True]})
     i = 0
-    while len(cases) < n + len(WITNESSES):
+    ntotal = len(cases) + n + len(WITNESSES)
+    while len(cases) < ntotal:
         r = cm.rng(ctx.seed, "c01", i)
         i += 1
         src = G.gen_compilable(r, import_bias=.18, final_newline_p=.85)
@@ -373,11 +387,14 @@ def f12_str_input_gains_newline(c, src, out):
 # ---------------------------------------------------------------------------------------------
 
 def short(c):
+    if c.get("kind") == "corpus":
+        return {k: v for k, v in c.items() if k != "src"}
     return c
 
 
 def run(ctx):
-    n = 700 if ctx.quick else 30000
+    n = 700 if ctx.quick else 12000
+    ncorpus = 60 if ctx.quick else None
     ctx.coverage["rule"] = ("generated statement soups with 0-4 import runs and docstring/comment prologues x tool in {reformat (PythonBlock / str), "
                             "tidy with random flags and one of 4 small DBs, replace_star, remove_broken, transform({}), canonicalize} x 6 formatting "
                             "parameter sets; every SourceToSourceFileImportsTransformation created by the tool is one model evaluation (open mode); "
@@ -387,14 +404,14 @@ def run(ctx):
         "CPython's top-level node list (character columns, kinds Import/StrExpr/Other, last lines) is computed by the harness from ast + tokenize",
         "block selection (find_import_block_by_lineno, select_import_block_by_closest_prefix_match) and the import-set algebra belong to C03/C04 (S2S/Tidy.v); a tool that raises is counted, not compared",
     ]
-    cases = cm.load_corpus("C01") + gen_cases(ctx, n)
+    cases = cm.load_corpus("C01") + gen_cases(ctx, n, ncorpus)
     impl = cm.run_impl("c01", "impl_case", cases, timeout_case=60)
     exprs, where = [], []
     for ci, (c, im) in enumerate(zip(cases, impl)):
         if "__exc__" in im or "__timeout__" in im:
             continue
         for pi, p in enumerate(im["passes"]):
-            if "out" not in p:
+            if "out" not in p or len(p["input"]) > MAX_MODEL_CHARS:
                 continue
             e = pass_expr(p, im["fso"])
             if e is not None:
@@ -417,6 +434,7 @@ def compare_one(ctx, c, im, mvs):
         return
     src = c["src"]
     nontriv = False
+    ctx.bump("kind:" + c["kind"])
     if "exc" in im:
         ctx.bump("tool_raised:" + im["exc"])
         ctx.count(short(c), False)
@@ -433,6 +451,10 @@ def compare_one(ctx, c, im, mvs):
         if p["input"] != expected_input:
             ctx.disagreement("input text of pass %d" % pi, short(c), p["input"][-80:], (expected_input or "")[-80:])
         m = mvs.get(pi)
+        if m is None and len(p["input"]) > MAX_MODEL_CHARS:
+            expected_input = p.get("out")
+            ctx.bump("pass_oracle_only")
+            continue
         if m is None:
             ctx.disagreement("model returned no result for pass %d" % pi, short(c), {"input": p["input"][:200]}, None)
             break
@@ -476,12 +498,15 @@ def compare_one(ctx, c, im, mvs):
     if not src.endswith("\n"):
         ctx.bump("no_final_newline")
     ctx.count(short(c), nontriv)
-    if nontriv:
+    if nontriv and c["kind"] == "gen":
         ctx.sample({"case": c, "out": im["out"]}, limit=3)
 
 
 def replay(payload):
     case = payload.get("case") or payload["disagreements"][0]["case"]
+    if "src" not in case and "path" in case:
+        from . import c10
+        case = dict(case, src=c10.read_source(case["path"]))
     impl = cm.run_impl("c01", "impl_case", [case], jobs=1)
     im = impl[0]
     exprs = [pass_expr(p, im["fso"]) for p in im.get("passes", []) if "out" in p]
